@@ -142,6 +142,10 @@ class PatchHooks(Hooks):
         if d.endswith("mock.patch"):
             self.calls[-1].append((args[0] if args else None, kwargs.get("side_effect")))
             return Obj("patcher", kind="patcher")
+        if d in ("builtins.getattr", "getattr") and args and isinstance(args[0], Obj) and args[0].kind == "module" and len(args) >= 2:
+            return self.dict_get(I, args[0].attrs["__dict__"], args[1], site)  # getattr(module, name[, default])
+        if d in ("builtins.vars", "vars") and args and isinstance(args[0], Obj) and args[0].kind == "module":
+            return args[0].attrs["__dict__"]
         if d in ("sys.modules.get", "importlib.import_module"):
             m = Obj("module", kind="module")
             dd = Dct()
